@@ -85,4 +85,10 @@ MUTANTS = [
     def cleanup(self, t_elem: TElement) -> None:
         \"\"\"Clean up the tree with root in TElement.
 """)]},
+    # cycle test as next(generator) / wrapper around the cursor helpers
+    {"id": 'c03-n-cycle-next-generator', "expect": 'silent', "edits": [(L, '                for i, (stack_symbol, _, _, _) in enumerate(stack):\n                    if stack_symbol == cur_symbol:\n                        # found cycle\n                        cycle_data = [\n                            (s, prod_rules[prod_id], symbol_id)\n                            for s, prod_rules, prod_id, symbol_id in stack[i:]\n                        ]\n                        raise GrammarIsRecursive(\n                            parser_summary, cycle_data, nullables)\n', '                i = next((k for k, entry in enumerate(stack) if entry[0] == cur_symbol), None)\n                if i is not None:\n                    cycle_data = [\n                        (s, rules_, prod_id, symbol_id)\n                        for s, rules_, prod_id, symbol_id in stack[i:]\n                    ]\n                    raise GrammarIsRecursive(\n                        parser_summary, cycle_data, nullables)\n')]},
+    {"id": 'c03-cycle-next-skips-top', "expect": 'fire', "edits": [(L, '                for i, (stack_symbol, _, _, _) in enumerate(stack):\n                    if stack_symbol == cur_symbol:\n                        # found cycle\n                        cycle_data = [\n                            (s, prod_rules[prod_id], symbol_id)\n                            for s, prod_rules, prod_id, symbol_id in stack[i:]\n                        ]\n                        raise GrammarIsRecursive(\n                            parser_summary, cycle_data, nullables)\n', '                i = next((k for k, entry in enumerate(stack[:-1]) if entry[0] == cur_symbol), None)\n                if i is not None:\n                    cycle_data = [\n                        (s, rules_, prod_id, symbol_id)\n                        for s, rules_, prod_id, symbol_id in stack[i:]\n                    ]\n                    raise GrammarIsRecursive(\n                        parser_summary, cycle_data, nullables)\n')]},
+    {"id": 'c03-cycle-next-wrong-component', "expect": 'fire', "edits": [(L, '                for i, (stack_symbol, _, _, _) in enumerate(stack):\n                    if stack_symbol == cur_symbol:\n                        # found cycle\n                        cycle_data = [\n                            (s, prod_rules[prod_id], symbol_id)\n                            for s, prod_rules, prod_id, symbol_id in stack[i:]\n                        ]\n                        raise GrammarIsRecursive(\n                            parser_summary, cycle_data, nullables)\n', '                i = next((k for k, entry in enumerate(stack) if entry[1] == cur_symbol), None)\n                if i is not None:\n                    cycle_data = [\n                        (s, rules_, prod_id, symbol_id)\n                        for s, rules_, prod_id, symbol_id in stack[i:]\n                    ]\n                    raise GrammarIsRecursive(\n                        parser_summary, cycle_data, nullables)\n')]},
+    {"id": 'c03-n-step-over-wrapper', "expect": 'silent', "edits": [(L, '                if cur_symbol in processed_symbols:\n                    if cur_symbol in nullables:\n                        _next_symbol(stack)\n                    else:\n                        _next_prod(stack)\n                    continue\n', '                if cur_symbol in processed_symbols:\n                    _step_over(stack, cur_symbol)\n                    continue\n'), (L, '            def _next_symbol(_stack):\n                _stack[-1][3] += 1\n', '            def _next_symbol(_stack):\n                _stack[-1][3] += 1\n\n            def _step_over(_stack, sym_):\n                if sym_ in nullables:\n                    _next_symbol(_stack)\n                else:\n                    _next_prod(_stack)\n')]},
+    {"id": 'c03-step-over-wrapper-inverted', "expect": 'fire', "edits": [(L, '                if cur_symbol in processed_symbols:\n                    if cur_symbol in nullables:\n                        _next_symbol(stack)\n                    else:\n                        _next_prod(stack)\n                    continue\n', '                if cur_symbol in processed_symbols:\n                    _step_over(stack, cur_symbol)\n                    continue\n'), (L, '            def _next_symbol(_stack):\n                _stack[-1][3] += 1\n', '            def _next_symbol(_stack):\n                _stack[-1][3] += 1\n\n            def _step_over(_stack, sym_):\n                if sym_ not in nullables:\n                    _next_symbol(_stack)\n                else:\n                    _next_prod(_stack)\n')]},
 ]
